@@ -15,6 +15,8 @@ EXTENDS TMFastSyncOps, TraceKit
 Trace == LoadTrace("trace.ndjson")
 \* validator powers per height as the harness generated the chain (same for the whole file)
 TraceVals == Trace[1].vals
+\* heights whose canonical commit carries a genuine nil precommit in its last slot
+TraceNilAt == {Trace[1].nilAt[i] : i \in 1..Len(Trace[1].nilAt)}
 
 VARIABLES
   l,
